@@ -76,3 +76,42 @@ func VP_C16_Lengths() {
 	vpAssert(p == (ns != ne), "NewIndex panics iff the lists have different lengths")
 	vpReach("end")
 }
+
+// VP_C16_ReadOnly: At stores only into memory it allocated itself, so
+// concurrent readers cannot race. Symbolically this is the executor's write
+// log between the mark and the end; natively the same calls are made from
+// several goroutines and the replay runs under the race detector.
+func VP_C16_ReadOnly() {
+	n := vpCase("n")
+	starts, ends := make([]int, n), make([]int, n)
+	for x := 0; x < n; x++ {
+		starts[x] = vpInt("start" + vpDigit(x))
+		ends[x] = vpInt("end" + vpDigit(x))
+	}
+	idx := NewIndex(starts, ends)
+	q, q2 := vpInt("q"), vpInt("q2")
+	vpWriteMark()
+	r1 := idx.At(q)
+	r2 := idx.At(q2)
+	r3 := idx.At(q)
+	w := vpOldWrites()
+	vpAssert(w == 0, "At stores only into memory it allocated itself (no write to the index or to earlier results)")
+	vpAssert(vpIntsEq(r1, r3), "the same position gives the same answer again")
+	_ = r2
+	if !vpSymbolic() {
+		done := make(chan bool)
+		for g := 0; g < 4; g++ {
+			go func() {
+				for k := 0; k < 50; k++ {
+					idx.At(q)
+					idx.At(q2)
+				}
+				done <- true
+			}()
+		}
+		for g := 0; g < 4; g++ {
+			<-done
+		}
+	}
+	vpReach("end")
+}
